@@ -144,6 +144,95 @@ def _guard(run, P):
     from .c01 import _alias
     _alias(run, "C07.guard", "C03.guard", lambda: c07._wrap(run, P))
     c07.polarity(run, P, "C03.guard")
+    run.do(c07.carry, run, P, "C03.guard")
+    # the lowering the Fortran generator starts from (shared with C05)
+    from . import c05
+    _alias(run, "C05.loops", "C03.guard", lambda: c05._loops(run, P))
+    _alias(run, "C05.cond", "C03.guard", lambda: c05._cond(run, P))
+    run.do(_templates, run, P)
+
+
+def _template_texts(P):
+    """(name, text, node) of every CallCode(...) template of the Fortran generator."""
+    m = P.module("dagrt.codegen.fortran")
+    consts = {}
+    for name, v in m.assigns.items():
+        s_ = string_value(v)
+        if s_ is not None:
+            consts[name] = s_
+    out = []
+    for name, v in m.assigns.items():
+        if isinstance(v, ast.Call) and dotted(v.func) == "CallCode" and v.args:
+            parts = []
+
+            def flat(e):
+                if isinstance(e, ast.BinOp) and isinstance(e.op, ast.Add):
+                    flat(e.left)
+                    flat(e.right)
+                elif isinstance(e, ast.Name) and e.id in consts:
+                    parts.append(consts[e.id])
+                else:
+                    s2 = string_value(e)
+                    if s2 is None:
+                        raise AnalysisError(f"template {name}: not a constant string")
+                    parts.append(s2)
+            flat(v.args[0])
+            out.append((name, "".join(parts), v))
+    return out
+
+
+def _templates(run, P):
+    """Allocation idiom of the built-in templates: storage for a result that
+    may already be allocated is released and allocated afresh - unconditionally,
+    because the size asked for this time need not be the size it has."""
+    import re as _re
+    run.rule("C03.templates", "built-in templates: a result that is tested with allocated() "
+             "is released if allocated and then allocated unconditionally with the size "
+             "asked for", minimum=3)
+    n = 0
+    for name, text, node in _template_texts(P):
+        text = _re.sub(r"<%def.*?</%def>", "", text, flags=_re.S)
+        text = _re.sub(r"<%.*?%>", "", text, flags=_re.S)
+        stack = []
+        tested = set(_re.findall(r"allocated\(\$\{(\w+)\}\)", text))
+        seen_dealloc = set()
+        for line in text.split("\n"):
+            l = line.strip().lower()
+            if not l or l.startswith("!") or l.startswith("%"):
+                continue
+            if _re.match(r"(else\s*)?if\s*\(.*\)\s*then$", l):
+                if l.startswith("else"):
+                    if stack:
+                        stack.pop()
+                stack.append(l)
+                continue
+            if _re.match(r"else$", l):
+                if stack:
+                    stack[-1] = "else of " + stack[-1]
+                continue
+            if _re.match(r"end\s*if$", l):
+                if stack:
+                    stack.pop()
+                continue
+            md = _re.match(r"deallocate\(\$\{(\w+)\}\)", l)
+            if md and md.group(1) in tested:
+                if any(f"allocated(${{{md.group(1)}}})" in c and ".not." not in c for c in stack):
+                    seen_dealloc.add(md.group(1))
+            ma = _re.match(r"allocate\(\$\{(\w+)\}", l)
+            if ma and ma.group(1) in tested:
+                v = ma.group(1)
+                n += 1
+                guards = [c for c in stack if f"allocated(${{{v}}})" in c]
+                ok = not guards and v in seen_dealloc
+                run.ob("C03.templates", P.module("dagrt.codegen.fortran"), node, ok,
+                       construct=f"{name}: allocate(${{{v}}}...) is unconditional and follows "
+                                 f"'if (allocated) deallocate'"
+                                 + (f" (under: {guards[0][:50]})" if guards else ""),
+                       why="storage kept from an earlier call has the size asked for then: an "
+                           "array re-created with another length keeps the old one, and the "
+                           "state differs from the interpreter's")
+    if n < 3:
+        raise AnalysisError(f"C03.templates: only {n} result allocations found in the templates")
 
 
 def _cmp(run, P):
